@@ -100,3 +100,11 @@ register("C09", "simlab.profiles.c09", "exploration", budgets={"quick": dict(run
          rule=_EVO_RULE, assumptions=_EVO_ASSUME, seams=_EVO_SEAMS, design_ref="4/C09")
 register("C10", "simlab.profiles.c10", "exploration", budgets={"quick": dict(runs=1600, timeout=300), "thorough": dict(runs=60000, timeout=600)},
          rule=_EVO_RULE, assumptions=_EVO_ASSUME, seams=_EVO_SEAMS, design_ref="4/C10")
+
+register("C08", "simlab.profiles.c08", "exploration", budgets={"quick": dict(runs=2400, timeout=300), "thorough": dict(runs=40000, timeout=600)},
+         rule=("each run = one seeded session on a generated model: guesses (random/product, any gauge), Hamiltonians with offsets, optimize_mps calls with generated "
+               "sweep schedules, 1-/2-site, direct/Davidson (cut-off knob forces the iterative branch), 1-4 roots, omega targeting, stacked operators, Davidson stopped "
+               "after 1-5 cycles, LAPACK failures in the blocked SVD; every reported value of every sweep is compared with sector-restricted exact diagonalisation. "
+               "non-trivial = optimisation returning bond dimension > 1; distinct = distinct (method, algo, roots, omega, iterative, max_cycle, svd-fault, stacked, swapping, bonds, sweeps)"),
+         assumptions=COMMON_ASSUMPTIONS + ["numpy eigh of the sector block is the exact reference", "equality at full bond dimension is asserted only for converged fault-free schedules with tolerance 20*max(e_rtol|E|, e_atol)"],
+         seams=_CHAIN_SEAMS + ["SimSolver (davidson as seen from mps.gs: max_cycle / max_memory)", "direct-vs-iterative cut-off knob (np.prod proxy in mps.gs)", "SimLAPACK"], design_ref="4/C08")
